@@ -286,6 +286,17 @@ def run(ctx: Ctx) -> None:
     bad = [s for s in states if "closed" in s and "cleared" not in s]
     closes = any("closed" in s for s in states)
     ctx.ob("C19.R3", disc, "disconnect() closes the installed connection", closes, "")
+    # ... whenever one is installed: the only way out without closing is the "nothing installed" test (a re-entrancy
+    # flag, a "disconnect already running" shortcut would make a forced disconnect a no-op while the graceful one hangs)
+    def cl_inst(n: Node):
+        t = n.ast
+        if isinstance(t, ast.Compare) and len(t.ops) == 1 and isinstance(t.comparators[0], ast.Constant) and t.comparators[0].value is None and norm(t.left) in aliases:
+            return ("installed", isinstance(t.ops[0], (ast.IsNot, ast.NotEq)))
+        return None
+
+    closers_n = {n for n in gd.reachable() if any(any(f.cls is conn and f.name in ("disconnect", "force_disconnect") for f in res.callees(disc, c).funcs) for c in node_calls(n))}
+    free_d = walk(gd, {"installed": True}, cl_inst, blocked=closers_n)
+    ctx.ob("C19.R3", disc, "with a connection installed every path of disconnect() closes it", bool(closers_n) and gd.exit not in free_d, "disconnect() can return with the connection installed and not closed")
     ctx.ob("C19.R3", disc, "after disconnect() closed the connection it is no longer installed", not bad, "disconnect() before the session was established leaves the closed connection installed: every later start_connection() is refused")
     # ... and nothing between the close and the forgetting can raise by itself (a diagnostic that reads state which only
     # an established connection has, say): the exception would leave with the closed connection still installed
